@@ -94,11 +94,27 @@ func (g *gen) execCall(fr *frame, cur *node, st *State, c *ssa.CallCommon, pos t
 				for _, b := range mc.Bindings {
 					binds = append(binds, g.val(fr, b))
 				}
+				if g.spawning {
+					// go func(){...}(): the body runs concurrently; from here on the heap may change
+					g.spawning = false
+					g.havocHeap(cur, st)
+					g.used["assume:spawned closure "+shortKey(funcKey(mc.Fn.(*ssa.Function)))+" treated as arbitrary concurrent heap effects"] = true
+					return nil, cur
+				}
 				return g.execInline(fr, cur, st, mc.Fn.(*ssa.Function), binds, args, pos)
 			}
 		}
 		if (fs == nil || fs.Inline) && len(callee.Blocks) > 0 && len(callee.FreeVars) == 0 && !matchPure(g.P.spec.PurePats, key) &&
 			callee.Pkg != nil && strings.HasPrefix(callee.Pkg.Pkg.Path(), "github.com/vicanso/pike/") {
+			if fr.top && instr != nil && len(g.fs.PreCalls) > 0 {
+				g.preCallAsserts(fr, cur, st, key, instr, pos, c) // precall clauses also bind to helpers executed in place
+			}
+			if g.spawning {
+				g.spawning = false
+				g.havocHeap(cur, st)
+				g.used["assume:spawned function "+shortKey(key)+" treated as arbitrary concurrent heap effects"] = true
+				return nil, cur
+			}
 			return g.execInline(fr, cur, st, callee, nil, args, pos)
 		}
 	} else {
@@ -166,6 +182,8 @@ func (g *gen) execCall(fr *frame, cur *node, st *State, c *ssa.CallCommon, pos t
 
 func (g *gen) applyContract(fr *frame, cur *node, st *State, fs *FuncSpec, sig *types.Signature, args []Val, pos token.Pos) (Val, *node) {
 	short := shortKey(fs.Key)
+	spawned := g.spawning
+	g.spawning = false
 	pre, err := g.bindParams(fs, nil, sig, args, nil, st, st)
 	if err != nil {
 		g.errorf("%s: call of %s: %v", g.name, fs.Key, err)
@@ -218,6 +236,9 @@ func (g *gen) applyContract(fr *frame, cur *node, st *State, fs *FuncSpec, sig *
 		g.errorf("%s: call of %s: %v", g.name, fs.Key, err)
 	} else {
 		for _, c := range fs.Ensures {
+			if spawned && !strings.HasPrefix(c.Label, "spawn") {
+				continue
+			}
 			t, err := post.trAssume(c.E)
 			if err != nil {
 				g.errorf("%s: ensures [%s] of %s: %v", g.name, c.Label, fs.Key, err)
